@@ -36,6 +36,7 @@ func unsup(format string, a ...interface{}) { panic(unsupported{fmt.Sprintf(form
 
 type Epoch struct {
 	allocAt Term // every reference stored in a base heap of this epoch is < allocAt
+	logHavoc bool
 	id    int
 	prev  *Epoch          // partial havoc: keys outside over come from prev
 	over  map[string]bool // nil: every key is fresh in this epoch
@@ -108,6 +109,7 @@ type VC struct {
 	entry    *State
 	epochCtr int
 	strlits  map[string]Term
+	bits     map[Term]*big.Int
 	refKeys  map[string]bool
 	keyInt   map[string]types.Type
 	cutsHit  map[string]bool
@@ -395,6 +397,9 @@ func (vc *VC) epochBase(ep *Epoch, key string) Term {
 		if ep.over != nil && !ep.over[key] {
 			return vc.epochBase(ep.prev, key)
 		}
+		if strings.HasPrefix(key, "Z:") && ep.prev != nil && !ep.logHavoc {
+			return vc.epochBase(ep.prev, key) // the ghost call log is not part of the heap: havoc-all keeps it
+		}
 		n := fmt.Sprintf("H%d_%s", ep.id, ki.name)
 		if !vc.declared[n] {
 			vc.declared[n] = true
@@ -498,10 +503,24 @@ func (vc *VC) havocKeys(st *State, wk *writeSet) {
 		st.alloc = na
 	}
 	if wk.all {
-		st.epoch = vc.newEpoch()
-		st.epoch.allocAt = st.alloc
+		ne := vc.newEpoch()
+		ne.prev = st.epoch
+		ne.allocAt = st.alloc
+		old := st.heap
+		st.epoch = ne
 		st.heap = map[string]Term{}
+		for k, v := range old {
+			if strings.HasPrefix(k, "Z:") {
+				st.heap[k] = v
+			}
+		}
+		if wk.logs {
+			vc.havocLog(st)
+		}
 		return
+	}
+	if wk.logs {
+		vc.havocLog(st)
 	}
 	if len(wk.keys) == 0 {
 		return
@@ -513,6 +532,28 @@ func (vc *VC) havocKeys(st *State, wk *writeSet) {
 		delete(st.heap, k)
 	}
 	st.epoch = &Epoch{id: vc.epochCtr, prev: st.epoch, over: over, allocAt: st.alloc}
+}
+
+// havocLog: the ghost call log may have grown (loop bodies containing logged calls); the old prefix is kept.
+func (vc *VC) havocLog(st *State) {
+	oldN := vc.heapGet(st, "Z:n", "Int")
+	newN := vc.fresh("logn", "Int")
+	vc.emit(fmt.Sprintf("(assert (>= %s %s))", newN, oldN))
+	var ks []string
+	for k := range vc.keys {
+		if strings.HasPrefix(k, "Z:") && k != "Z:n" {
+			ks = append(ks, k)
+		}
+	}
+	sort.Strings(ks)
+	for _, k := range ks {
+		ki := vc.keys[k]
+		oldA := vc.heapGet(st, k, ki.sort)
+		newA := vc.fresh("log_"+ki.name, ki.sort)
+		vc.emit(fmt.Sprintf("(assert (forall ((i Int)) (! (=> (< i %s) (= (select %s i) (select %s i))) :pattern ((select %s i)))))", oldN, newA, oldA, newA))
+		st.heap[k] = newA
+	}
+	st.heap["Z:n"] = newN
 }
 
 func (vc *VC) heapGet(st *State, key, sort string) Term {
